@@ -63,6 +63,7 @@ META = {
         "in-place replacement puts the message into titles/paragraphs (document title, toc) and is a violation. Whenever the raw node is "
         "removed, a field_name it leaves empty is refilled: after the removal, `if isinstance(P, field_name) and not P.children: "
         "P.append(...)` with P the parent captured before the removal and no further condition (DocInfo reads field[0][0]). "
+        "The climb may live in a helper `a = anchor_of(node)` that returns the climbed node. "
         "R2: no function reachable from a registered transform / post-transform / Sphinx event handler, or from what the entry calls "
         "after the filter, constructs nodes.raw (directly, through an alias or a package subclass); every construction is in a "
         "render-phase function or unreachable. Reachability includes the renderer's dynamic dispatch wherever it is written. "
@@ -905,6 +906,18 @@ class Filter:
             and not w_.orelse
         ]
         starts = [n for n in walk_local(lp) if isinstance(n, ast.Assign) and len(n.targets) == 1 and unparse(n.targets[0]) == a and unparse(n.value) == v]
+        if not climbs and not starts:
+            # the anchor comes from a helper: `a = _anchor_of(v)` with `def _anchor_of(n): x = n; while isinstance(x.parent, C): x = x.parent; return x`
+            got = self._anchor_helper(lp, a, v, st, cfg)
+            if got is not None:
+                h_, classes, wnode = got
+                if "docutils.nodes.TextElement" not in classes:
+                    self.problems.append(("message-placement", f"{h_.qualname}() does not climb out of text elements: for inline raw nodes the warning is inserted inside a title or paragraph, whose text then contains the system message", wnode))
+                elif "docutils.nodes.field" not in classes:
+                    self.problems.append(("message-placement", f"the climb `{short(wnode.test, 70)}` in {h_.qualname}() stops at a field: for a raw node in a field name (`:author<br>: me`) the message is inserted between the field's name and body - a field has exactly these two children", wnode))
+                else:
+                    self.oks.append(("message-placement", f"the message goes next to the node {h_.qualname}() returns: outside the text element and the field around the raw node (or next to the node itself)", call))
+                return
         if climbs and starts and cfg.dominates(climbs[0], st) and cfg.dominates(starts[0], climbs[0]):
             classes = self._class_set(climbs[0].test.args[1])
             if "docutils.nodes.field" not in classes:
@@ -915,6 +928,47 @@ class Filter:
             self.problems.append(("message-placement", f"`{short(call, 60)}` inserts the warning into `{a}.parent`, and `{a}` is the raw node itself: for inline raw nodes that is inside a title or paragraph, whose text then contains the system message", call))
         else:
             raise Unsupported(f"{fi.module.site(call)}: cannot tell which node `{a}` is when the message is inserted")
+
+    def _anchor_helper(self, reg: ast.AST, a: str, v: str, st, cfg):
+        """`a = helper(v)` dominating ``st`` where the helper climbs from its argument out of a class set and returns
+        the climbed node -> (helper, class set, while node); None when `a` is not assigned that way."""
+        if self.corpus is None:
+            return None
+        fi = self.fi
+        g = get_callgraph(self.corpus)
+        asg = [n for n in walk_local(reg) if isinstance(n, ast.Assign) and len(n.targets) == 1 and unparse(n.targets[0]) == a and isinstance(n.value, ast.Call)]
+        if len(asg) != 1 or not cfg.dominates(cfg.stmt_of(asg[0]), st):
+            return None
+        c = asg[0].value
+        pos = [i for i, x in enumerate(c.args) if isinstance(x, ast.Name) and x.id == v]
+        ts = g.resolve_call(c, fi)
+        if not pos or len(ts) != 1 or not isinstance(ts[0], FunctionInfo) or ts[0].is_lambda:
+            return None
+        h = ts[0]
+        off = 1 if h.cls is not None and h.params and h.params[0] in ("self", "cls") else 0
+        if pos[0] + off >= len(h.params):
+            return None
+        pv = h.params[pos[0] + off]
+        rets = [n for n in h.local_nodes() if isinstance(n, ast.Return)]
+        if not rets or any(not isinstance(r.value, ast.Name) for r in rets) or len({r.value.id for r in rets}) != 1:  # type: ignore[union-attr]
+            raise Unsupported(f"{h.site()}: {h.qualname}() does not return one climbed node")
+        x = rets[0].value.id  # type: ignore[union-attr]
+        saved = self.fi
+        try:
+            self.fi = h
+            hcfg = get_cfg(h)
+            whiles = [
+                w_ for w_ in h.local_nodes()
+                if isinstance(w_, ast.While) and isinstance(w_.test, ast.Call) and dotted(w_.test.func) == "isinstance" and len(w_.test.args) == 2
+                and unparse(w_.test.args[0]) == f"{x}.parent" and not w_.orelse
+                and any(isinstance(b_, ast.Assign) and unparse(b_.targets[0]) == x and unparse(b_.value) == f"{x}.parent" for b_ in w_.body)
+            ]
+            starts = [n for n in h.local_nodes() if isinstance(n, ast.Assign) and len(n.targets) == 1 and unparse(n.targets[0]) == x and unparse(n.value) == pv] if x != pv else [h.node]
+            if len(whiles) != 1 or not starts or not all(hcfg.dominates(whiles[0], r) for r in rets):
+                raise Unsupported(f"{h.site()}: {h.qualname}() is not `x = node; while isinstance(x.parent, C): x = x.parent; return x`")
+            return h, self._class_set(whiles[0].test.args[1]), whiles[0]
+        finally:
+            self.fi = saved
 
     def _field_name_kept(self, reg: ast.AST, v: str, cfg) -> None:
         """Removing the raw node can leave its parent without children; docutils' DocInfo transform reads
